@@ -146,7 +146,8 @@ def gen_periods(rng, dt, lead0):
     ps = []
     for _ in range(k):
         r = 10 ** rng.uniform(math.log10(0.2), math.log10(2e4))
-        ps.append(r * dt if rng.random() < 0.7 else float(2.0 ** round(math.log2(r * dt))))
+        P = r * dt if rng.random() < 0.7 else float(2.0 ** round(math.log2(r * dt)))
+        ps.append(P if 0.2 * dt <= P <= 2e4 * dt else r * dt)
     if rng.random() < 0.5:
         ps.sort()
     if lead0:
